@@ -168,3 +168,34 @@ pub fn received_reset_native(over: bool) -> u32 {
     assert!(super::state::verif::peek_data_recvd(&st) == 100, "the unreceived remainder of a reset stream must count against the connection");
     1
 }
+
+/// Native demonstration / replay body (C06): the application stops a stream on which `buffered` bytes
+/// have been received but not read, then the peer resets the stream at final size `buffered + extra`.
+/// The connection-level credit handed back to the peer over the whole exchange must equal what the
+/// stream consumed (its final size): the window never opens wider than configured.
+pub fn stop_then_reset_credit_native(buffered: u8, extra: u8) -> u32 {
+    use super::state::verif::{mk_streams, Scalars};
+    let mut st = mk_streams(&Scalars {
+        server: true, max_remote: [4, 4], sent_max_remote: [4, 4], allocated_remote_count: [4, 4], max_concurrent_remote_count: [4, 4],
+        receive_window: 1000, local_max_data: 1000, sent_max_data: 1000, stream_receive_window: 1 << 16, ..Default::default()
+    });
+    let mut pending = Retransmits::default();
+    let id = StreamId::new(crate::Side::Client, Dir::Uni, 0);
+    st.insert(true, id);
+    static DATA: [u8; 255] = [7; 255];
+    if buffered > 0 {
+        st.received(frame::Stream { id, offset: 0, fin: false, data: Bytes::from_static(&DATA[..buffered as usize]) }, buffered as usize).unwrap();
+    }
+    let window0 = super::state::verif::peek_credit(&st);     // local_max_data - data_recvd
+    {
+        let mut rs = RecvStream { id, state: &mut st, pending: &mut pending };
+        rs.stop(VarInt::from_u32(1)).unwrap();
+    }
+    let fin = buffered as u32 + extra as u32;
+    st.received_reset(frame::ResetStream { id, error_code: VarInt::from_u32(3), final_offset: VarInt::from_u32(fin) }).unwrap();
+    // all `fin` bytes of the stream are now accounted as received AND released: the peer's remaining credit is
+    // exactly the configured window again
+    let credit = super::state::verif::peek_credit(&st);
+    assert!(credit == 1000, "connection-level credit after stop + reset is {} for a 1000-byte window (was {} before the stop)", credit, window0);
+    1
+}
